@@ -40,7 +40,7 @@ TRUSTED = [
     "tools/props/c06.py (generator, driver with constructor-order instrumentation, oracle)",
 ]
 ASSUMPTIONS = [
-    "classes: RootGroup, ContainerGroup, Points, float Data, PropertyGroup, GroupType/ObjectType; data types are not modelled",
+    "classes: RootGroup, ContainerGroup, Points, float Data, PropertyGroup, GroupType/ObjectType; data types are not in the Coq model (checked by an oracle-only block: identifiers of types carried between workspaces)",
     "removals are of childless entities; Group.copy is exercised with copy_children=False; no moves",
 ]
 RULE = (
